@@ -90,7 +90,11 @@ static size_t receiveDataFromLibCurl(void *ptr, size_t size, size_t nmemb, void 
 		goto cleanup;
 	}
 	tmp_buffer = KSI_calloc(bytesCount, 1);
-	if (tmp_buffer == NULL) goto cleanup;
+	if (tmp_buffer == NULL) {
+		/* Nothing was stored: the count returned has to differ from the count received. */
+		bytesCount = size * nmemb + 1;
+		goto cleanup;
+	}
 
 	memcpy(tmp_buffer, nc->raw, nc->len);
 	memcpy(tmp_buffer + nc->len, ptr, size * nmemb);
